@@ -13,6 +13,7 @@
 -/
 import SshAudit.Model.Session
 import SshAudit.Props.C02
+import SshAudit.Props.C10
 namespace SshAudit.C09
 open SshAudit SshAudit.Session
 
@@ -287,5 +288,129 @@ example : (handshakeS { events := goodStream.take 1 }).1 = .readError := by deci
 example : (handshakeS { events := [.data ([83,83,72,45,50,46,48,45,120,13,10]), .timeout, .data [1,2,3]] }).2.2.stalls = 1 := by decide +kernel
 example : (handshakeS { events := [.data ([104,101,108,108,111,13,10]), .error] }).1 = .noBanner := by decide +kernel
 example : (handshakeS { events := [.data ([83,83,72,45,50,46,48,45,120,13,10]), .data [0,0,0,4,255,20,1,2,3]] }).1 = .badFraming := by decide +kernel
+
+/-! ### a truncated KEXINIT is never taken for a whole one -/
+
+open SshAudit.Wire in
+/-- reading a name-list from a truncated buffer either fails or leaves a strictly truncated rest -/
+theorem readList_prefix (names : List Bytes) (a R0 : Bytes) (e : writeList names = .ok a) (hR : R0 ≠ []) (m : Nat) (hm : m < (a ++ R0).length) :
+    readList ((a ++ R0).take m) = .error .struct ∨ ∃ v m', readList ((a ++ R0).take m) = .ok (v, R0.take m') ∧ m' < R0.length := by
+  unfold writeList writeString at e
+  cases hw : writeInt (joinComma names).length with
+  | error e' => simp [hw, bind, Except.bind] at e
+  | ok hd =>
+    simp only [hw, bind, Except.bind, pure, Except.pure, Except.ok.injEq] at e
+    subst e
+    have hd4 : hd.length = 4 := by
+      unfold writeInt at hw
+      split at hw
+      · simp only [Except.ok.injEq] at hw; subst hw; simp
+      · cases hw
+    have hRpos : 0 < R0.length := List.length_pos_iff.mpr hR
+    by_cases h4 : m < 4
+    · left
+      unfold readList readString readInt
+      have : ((hd ++ joinComma names ++ R0).take m).length < 4 := by simp only [List.length_take]; omega
+      rw [if_pos this]
+      rfl
+    · right
+      have hm4 : 4 ≤ m := by omega
+      have hsplit : (hd ++ joinComma names ++ R0).take m = hd ++ (joinComma names ++ R0).take (m - 4) := by
+        rw [List.append_assoc, List.take_append, hd4, List.take_of_length_le (by omega)]
+      rw [hsplit]
+      unfold readList readString
+      rw [C10.u32_rt _ hd _ hw]
+      simp only [bind, Except.bind, pure, Except.pure]
+      refine ⟨splitComma (((joinComma names ++ R0).take (m - 4)).take (joinComma names).length), m - 4 - (joinComma names).length, ?_, ?_⟩
+      · congr 2
+        rw [List.drop_take, List.drop_append, List.drop_of_length_le (Nat.le_refl _)]
+        simp
+      · simp only [List.length_append, hd4] at hm; omega
+
+open SshAudit.Wire in
+/-- **Every proper prefix of a well-formed KEXINIT message is rejected** (with `struct.error`, which `audit()` turns into
+    status 1 without a report): a peer cannot get a truncated algorithm list reported as its configuration. -/
+theorem kexinit_prefix_rejected (k : Kex) (bs : Bytes) (hc : k.cookie.length = 16) (h : kexWrite k = .ok bs) (m : Nat) (hm : m < bs.length) :
+    kexParse (bs.take m) = .error .struct := by
+  unfold kexWrite at h
+  cases e1 : writeList k.kex with | error e => simp [e1, bind, Except.bind] at h | ok a =>
+  cases e2 : writeList k.key with | error e => simp [e1, e2, bind, Except.bind] at h | ok b =>
+  cases e3 : writeList k.encC with | error e => simp [e1, e2, e3, bind, Except.bind] at h | ok c =>
+  cases e4 : writeList k.encS with | error e => simp [e1, e2, e3, e4, bind, Except.bind] at h | ok d =>
+  cases e5 : writeList k.macC with | error e => simp [e1, e2, e3, e4, e5, bind, Except.bind] at h | ok e =>
+  cases e6 : writeList k.macS with | error e => simp [e1, e2, e3, e4, e5, e6, bind, Except.bind] at h | ok f =>
+  cases e7 : writeList k.compC with | error e => simp [e1, e2, e3, e4, e5, e6, e7, bind, Except.bind] at h | ok g =>
+  cases e8 : writeList k.compS with | error e => simp [e1, e2, e3, e4, e5, e6, e7, e8, bind, Except.bind] at h | ok hh =>
+  cases e9 : writeList k.langC with | error e => simp [e1, e2, e3, e4, e5, e6, e7, e8, e9, bind, Except.bind] at h | ok i =>
+  cases e10 : writeList k.langS with | error e => simp [e1, e2, e3, e4, e5, e6, e7, e8, e9, e10, bind, Except.bind] at h | ok j =>
+  cases e11 : writeInt k.unused with | error e => simp [e1, e2, e3, e4, e5, e6, e7, e8, e9, e10, e11, bind, Except.bind] at h | ok u =>
+  simp only [e1, e2, e3, e4, e5, e6, e7, e8, e9, e10, e11, bind, Except.bind, pure, Except.pure, Except.ok.injEq] at h
+  subst h
+  have hu : u.length = 4 := by
+    unfold writeInt at e11
+    split at e11
+    · simp only [Except.ok.injEq] at e11; subst e11; simp
+    · cases e11
+  have hb : (writeBool k.follows).length = 1 := by simp [writeBool]
+  simp only [List.append_assoc] at hm ⊢
+  -- the cookie read clamps: what is left is a strict prefix of the rest
+  have hcookie : (Wire.read 16 ((k.cookie ++ (a ++ (b ++ (c ++ (d ++ (e ++ (f ++ (g ++ (hh ++ (i ++ (j ++ (writeBool k.follows ++ u)))))))))))).take m)).2
+      = (a ++ (b ++ (c ++ (d ++ (e ++ (f ++ (g ++ (hh ++ (i ++ (j ++ (writeBool k.follows ++ u))))))))))).take (m - 16) := by
+    simp only [Wire.read]
+    rw [List.drop_take, List.drop_append, hc, List.drop_of_length_le (by omega)]
+    simp
+  unfold kexParse
+  simp only [hcookie]
+  have ne : ∀ (x : Bytes), x ++ (writeBool k.follows ++ u) ≠ [] := by
+    intro x hx; have := congrArg List.length hx; simp [hb, hu] at this
+  have hm0 : m - 16 < (a ++ (b ++ (c ++ (d ++ (e ++ (f ++ (g ++ (hh ++ (i ++ (j ++ (writeBool k.follows ++ u))))))))))).length := by
+    simp only [List.length_append, hc] at hm ⊢; omega
+  rcases readList_prefix _ a _ e1 (by simpa [List.append_assoc] using ne (b ++ (c ++ (d ++ (e ++ (f ++ (g ++ (hh ++ (i ++ j))))))))) _ hm0 with h1 | ⟨v1, m1, h1, hm1⟩
+  · simp [h1, bind, Except.bind]
+  rw [h1]; simp only [bind, Except.bind]
+  rcases readList_prefix _ b _ e2 (by simpa [List.append_assoc] using ne (c ++ (d ++ (e ++ (f ++ (g ++ (hh ++ (i ++ j)))))))) _ hm1 with h2 | ⟨v2, m2, h2, hm2⟩
+  · simp [h2, bind, Except.bind]
+  rw [h2]; simp only [bind, Except.bind]
+  rcases readList_prefix _ c _ e3 (by simpa [List.append_assoc] using ne (d ++ (e ++ (f ++ (g ++ (hh ++ (i ++ j))))))) _ hm2 with h3 | ⟨v3, m3, h3, hm3⟩
+  · simp [h3, bind, Except.bind]
+  rw [h3]; simp only [bind, Except.bind]
+  rcases readList_prefix _ d _ e4 (by simpa [List.append_assoc] using ne (e ++ (f ++ (g ++ (hh ++ (i ++ j)))))) _ hm3 with h4 | ⟨v4, m4, h4, hm4⟩
+  · simp [h4, bind, Except.bind]
+  rw [h4]; simp only [bind, Except.bind]
+  rcases readList_prefix _ e _ e5 (by simpa [List.append_assoc] using ne (f ++ (g ++ (hh ++ (i ++ j))))) _ hm4 with h5 | ⟨v5, m5, h5, hm5⟩
+  · simp [h5, bind, Except.bind]
+  rw [h5]; simp only [bind, Except.bind]
+  rcases readList_prefix _ f _ e6 (by simpa [List.append_assoc] using ne (g ++ (hh ++ (i ++ j)))) _ hm5 with h6 | ⟨v6, m6, h6, hm6⟩
+  · simp [h6, bind, Except.bind]
+  rw [h6]; simp only [bind, Except.bind]
+  rcases readList_prefix _ g _ e7 (by simpa [List.append_assoc] using ne (hh ++ (i ++ j))) _ hm6 with h7 | ⟨v7, m7, h7, hm7⟩
+  · simp [h7, bind, Except.bind]
+  rw [h7]; simp only [bind, Except.bind]
+  rcases readList_prefix _ hh _ e8 (by simpa [List.append_assoc] using ne (i ++ j)) _ hm7 with h8 | ⟨v8, m8, h8, hm8⟩
+  · simp [h8, bind, Except.bind]
+  rw [h8]; simp only [bind, Except.bind]
+  rcases readList_prefix _ i _ e9 (by simpa [List.append_assoc] using ne j) _ hm8 with h9 | ⟨v9, m9, h9, hm9⟩
+  · simp [h9, bind, Except.bind]
+  rw [h9]; simp only [bind, Except.bind]
+  rcases readList_prefix _ j _ e10 (by simpa using ne []) _ hm9 with h10 | ⟨v10, m10, h10, hm10⟩
+  · simp [h10, bind, Except.bind]
+  rw [h10]; simp only [bind, Except.bind]
+  -- the boolean and the trailing 32-bit field: fewer than 5 bytes are left
+  simp only [List.length_append, hb, hu] at hm10
+  cases hfb : writeBool k.follows with
+  | nil => simp [hfb] at hb
+  | cons fb tl =>
+    have htl : tl = [] := by
+      have := hb; rw [hfb] at this; simp at this; exact this
+    subst htl
+    cases m10 with
+    | zero => simp [readBool, readByte, bind, Except.bind]
+    | succ q =>
+      have hq : min q u.length < 4 := by omega
+      simp [readBool, readByte, readInt, hq, bind, Except.bind, pure, Except.pure]
+
+-- non-vacuity: a real message, cut one byte short
+def sampleKex : Wire.Kex := ⟨List.replicate 16 7, [[0x61]], [[0x62]], [[0x63]], [[0x63]], [[0x64]], [[0x64]], [[0x65]], [[0x65]], [[]], [[]], false, 0⟩
+example : (Wire.kexWrite sampleKex).toOption.map (fun bs => (bs.length, Wire.kexParse (bs.take (bs.length - 1)))) = some (69, .error .struct) := by decide +kernel
 
 end SshAudit.C09
